@@ -129,6 +129,7 @@ def blank_context_cases(vh, scratch, seed, quick=True, want="c07"):
         raise C.Inconclusive("Wrap.tla violates its own properties (%s): specification alarm" % res2.violated)
     cases += cases2
     sel = [c for c in cases if any(h["op"] == "setagain" or h["a"] == 13 or (h["op"].startswith("set") and not prev["alive"])
+                                   or (want == "panic" and h["op"] == "setwatcher")
                                    for prev, h in zip([{"alive": True}] + c["hist"], c["hist"]))]
     if quick and len(sel) > 6000:
         import random
@@ -142,7 +143,7 @@ def blank_context_cases(vh, scratch, seed, quick=True, want="c07"):
         out.append(("the process died: " + first, byid.get(cid)))
     for r in results:
         for m in r.get("mismatches") or []:
-            if (want == "c07" and m.get("c07")) or (want == "panic" and m.get("kind") == "panic"):
+            if (want == "c07" and m.get("c07")) or (want == "panic" and m.get("kind") in ("panic", "leak")):
                 out.append((m["detail"], byid.get(r["id"])))
     return out, len(sel), res.distinct
 
